@@ -72,6 +72,7 @@ pub fn stages(id: &str) -> Vec<Stage> {
             st(C01 { params: Params::conflict_heavy().with_soft(3, 150), stage: "release", async_weight: 3 }, 20_000, 1_000_000, Release),
             st(C01 { params: Params::default().with_soft(3, 150), stage: "release-rich", async_weight: 3 }, 10_000, 500_000, Release),
             st(C01 { params: Params::conflict_heavy().with_soft(3, 150), stage: "debug", async_weight: 3 }, 6_000, 300_000, Debug),
+            st(C01 { params: Params::huge_package(5000).with_soft(2, 100), stage: "huge", async_weight: 3 }, 300, 6_000, Release),
         ],
         "C02" => vec![
             st(C02 { params: Params::conflict_heavy().env_override(), stage: "main", variants: 4 }, 15_000, 600_000, Release),
@@ -96,6 +97,7 @@ pub fn stages(id: &str) -> Vec<Stage> {
             st(C07 { params: Params::default(), stage: "main" }, 20_000, 800_000, Release),
             st(C07 { params: Params { max_pkgs: 20, min_pkgs: 8, ..Params::default() }, stage: "large" }, 5_000, 200_000, Release),
             st(C07 { params: Params { min_pkgs: 100, max_pkgs: 160, max_cands: 4, max_reqs: 2, max_constrains: 1, min_root_reqs: 20, max_root_reqs: 60, ..Params::default() }, stage: "wide" }, 300, 6_000, Release),
+            st(C07 { params: Params::huge_package(6000), stage: "huge" }, 500, 10_000, Release),
         ],
         "C08" => vec![
             st(C08 { params: Params::conflict_heavy(), stage: "main", constructed: false }, 20_000, 800_000, Release),
@@ -106,8 +108,9 @@ pub fn stages(id: &str) -> Vec<Stage> {
             st(C09 { params: Params::default(), stage: "conflict-free", conflict_free: true }, 15_000, 600_000, Release),
         ],
         "C10" => vec![
-            st(C10 { params: Params::conflict_heavy().with_soft(2, 100), stage: "sampled", exhaustive: false, max_schedules: 0 }, 4_000, 150_000, Release),
-            st(C10 { params: Params { min_pkgs: 2, max_pkgs: 4, max_cands: 3, max_reqs: 2, min_root_reqs: 1, max_root_reqs: 2, ..Params::conflict_heavy() }, stage: "exhaustive", exhaustive: true, max_schedules: 3000 }, 90, 3_000, Release),
+            st(C10 { params: Params::conflict_heavy().with_soft(2, 100), stage: "sampled", exhaustive: false, max_schedules: 0, reentrant_sort: false }, 4_000, 150_000, Release),
+            st(C10 { params: Params::default().with_soft(2, 100), stage: "reentrant-sort", exhaustive: false, max_schedules: 0, reentrant_sort: true }, 3_000, 100_000, Release),
+            st(C10 { params: Params { min_pkgs: 2, max_pkgs: 4, max_cands: 3, max_reqs: 2, min_root_reqs: 1, max_root_reqs: 2, ..Params::conflict_heavy() }, stage: "exhaustive", exhaustive: true, max_schedules: 3000, reentrant_sort: false }, 90, 3_000, Release),
         ],
         "C11" => vec![
             st(C11 { params: Params::fanout().with_soft(2, 150), stage: "main" }, 15_000, 500_000, Release),
